@@ -1,8 +1,11 @@
 (* Properties/C03.v — statements only; every proof is `exact <lemma>`.
    C03 "No event is lost, invented, or released before a confirmed response carried it":
-   the event buffer as a data structure (Outstation/EventBuffer.v).  The session-level theorems
-   (release only by the matching confirm, offered until confirmed) are added by the session layer. *)
+   the event buffer as a data structure (Outstation/EventBuffer.v); then, at the end of the file, the session
+   (Outstation/Session.v: release only by the awaited CONFIRM, every abandoned response reset, one response
+   outstanding) and the composition of both (Outstation/Full.v: which ids leave the buffer in a step). *)
 From Dnp3V Require Import Base.Bytes Outstation.DbTypes Outstation.EventBuffer Outstation.EventBufferProofs.
+From Dnp3V Require Import Outstation.Database Outstation.Session Outstation.SessionLemmas_c04 Outstation.SessionLemmas_c03
+  Outstation.Full Outstation.FullProofs Outstation.SessionC03Proofs.
 From Coq Require Import Sorting.Sorted.
 Open Scope N_scope.
 
@@ -111,3 +114,217 @@ Example C03_ex_bytes :
   fst (fst (snd (ebuf_write (ebuf_run ex_cfg (firstn 4 ex_ops)) 30)))
   = [51; 1; 7; 1; 232; 3; 0; 0; 0; 0;  2; 3; 40; 1; 0;  7; 0; 129; 0; 0].
 Proof. vm_compute. reflexivity. Qed.
+
+(* ================================================================================================ *)
+(* the session (Outstation/Session.v, lemmas in Outstation/SessionLemmas_c03.v, SessionC03Proofs.v):
+   WHEN the database is told to release the written events, to offer them again, to write more.
+   Quantifiers: every configuration, every state reachable from start-up (`Reach`), every event,
+   every list of answers of the database.
+     nc o        : o is not the call clear_written_events      (SessionLemmas_c03.nc)
+     nodb / hq   : no call into the database / at most the event-info probe
+     waiting s   : a response that may carry events is outstanding (solicited confirm wait, or the
+                   confirm wait of an unsolicited response other than the start-up null response)
+     same_wait   : the same response is still outstanding;  wq s = nodb (solicited) / hq (unsolicited) *)
+
+Theorem C03_session_boundary_invariant : forall cfg s,
+  Reach cfg s -> s_pending s = None /\ (s_deferred s = None \/ is_unsol_wait (s_control s)).
+Proof. exact reach_boundary_inv. Qed.
+Print Assumptions C03_session_boundary_invariant.
+
+Theorem C03_awaited_confirm_computed : forall cfg s ev i,
+  releasing cfg s ev = Some i <->
+  exists from bytes ctl obj,
+    ev = ERx from None bytes (DOk ctl fn_confirm RvOk obj) /\ (o_any_master cfg = true \/ from = o_master cfg) /\
+    ((exists se dl r, s_control s = CSolWait se dl r /\ ctl_uns ctl = false /\ ctl_seq ctl = se_ecsn se /\
+                      i = ISolConfirmed (se_ecsn se)) \/
+     (exists resp rt dl, s_control s = CUnsolWait resp false rt dl /\ ctl_uns ctl = true /\
+                         ctl_seq ctl = ctl_seq (r_ctl resp) /\ i = IUnsolConfirmed (ctl_seq (r_ctl resp)))).
+Proof. exact releasing_spec. Qed.
+Print Assumptions C03_awaited_confirm_computed.
+
+Theorem C03_release_only_on_awaited_confirm : forall cfg s ev ans s' out,
+  Reach cfg s -> ostep cfg s ev ans = (s', out) ->
+  (forall i, awaited_confirm cfg s ev i ->
+     exists rest, out = OInfo i :: ODb DbClearWritten :: rest /\ Forall nc rest) /\
+  ((forall i, ~ awaited_confirm cfg s ev i) -> Forall nc out).
+Proof. exact release_only_on_awaited_confirm. Qed.
+Print Assumptions C03_release_only_on_awaited_confirm.
+
+Theorem C03_clear_written_position : forall cfg s ev ans s' out pre post,
+  Reach cfg s -> ostep cfg s ev ans = (s', out) -> out = pre ++ ODb DbClearWritten :: post ->
+  exists i, awaited_confirm cfg s ev i /\ pre = [OInfo i] /\ Forall nc post.
+Proof. exact clear_written_position. Qed.
+Print Assumptions C03_clear_written_position.
+
+Theorem C03_start_releases_nothing : forall cfg sel op iin a s o,
+  ostart cfg sel op iin a = (s, o) -> Forall nc o.
+Proof. exact start_releases_nothing. Qed.
+Print Assumptions C03_start_releases_nothing.
+
+Theorem C03_abandoned_solicited_wait_resets : forall cfg s ev ans s' pre i post,
+  Reach cfg s -> ostep cfg s ev ans = (s', pre ++ OInfo i :: post) ->
+  (exists q, i = ISolTimeout q) \/ i = ISolNewRequest ->
+  exists post', post = ODb DbReset :: post'.
+Proof. exact abandoned_solicited_wait_resets_at. Qed.
+Print Assumptions C03_abandoned_solicited_wait_resets.
+
+Theorem C03_disconnect_resets : forall cfg s ans s' out,
+  ostep cfg s EDisconnect ans = (s', out) -> exists rest, out = ODb DbReset :: OSessionEnd :: rest.
+Proof. exact disconnect_resets. Qed.
+Print Assumptions C03_disconnect_resets.
+
+Theorem C03_outstanding_step : forall cfg s ev ans s' out,
+  waiting s = true -> ostep cfg s ev ans = (s', out) ->
+  (Forall (wq s) out /\ same_wait s s') \/
+  (exists pre c post, out = pre ++ ODb c :: post /\ is_end c = true /\ Forall (wq s) pre).
+Proof. exact outstanding_step. Qed.
+Print Assumptions C03_outstanding_step.
+
+Theorem C03_outstanding_time : forall cfg target f s s' o,
+  waiting s = true -> advance f cfg s target = (s', o) ->
+  (Forall (wq s) o /\ same_wait s s') \/
+  (exists pre c post, o = pre ++ ODb c :: post /\ is_end c = true /\ Forall (wq s) pre).
+Proof. exact outstanding_time. Qed.
+Print Assumptions C03_outstanding_time.
+
+Theorem C03_one_response_outstanding : forall cfg s ev ans s' pre c post,
+  waiting s = true -> ostep cfg s ev ans = (s', pre ++ ODb c :: post) -> is_mark c = true ->
+  exists e, is_end e = true /\ In (ODb e) pre.
+Proof. exact one_response_outstanding. Qed.
+Print Assumptions C03_one_response_outstanding.
+
+Theorem C03_abandoned_response_reset_before_reuse : forall cfg s ev ans s' pre c post,
+  Reach cfg s -> waiting s = true -> (forall i, ~ awaited_confirm cfg s ev i) ->
+  ostep cfg s ev ans = (s', pre ++ ODb c :: post) -> is_mark c = true -> In (ODb DbReset) pre.
+Proof. exact abandoned_response_reset_before_reuse. Qed.
+Print Assumptions C03_abandoned_response_reset_before_reuse.
+
+Theorem C03_wait_persists : forall cfg s ev ans s' out,
+  waiting s = true -> ostep cfg s ev ans = (s', out) ->
+  ~ In (ODb DbClearWritten) out -> ~ In (ODb DbReset) out ->
+  same_wait s s' /\ Forall (wq s) out.
+Proof. exact wait_persists. Qed.
+Print Assumptions C03_wait_persists.
+
+(* ---- composed with the database model (Outstation/Full.v): the ids that leave the buffer ---- *)
+
+Theorem C03_composed_boundary_invariant : forall F st,
+  FReach F st -> s_pending (fs_s st) = None /\ (s_deferred (fs_s st) = None \/ is_unsol_wait (s_control (fs_s st))).
+Proof. exact freach_boundary_inv. Qed.
+Print Assumptions C03_composed_boundary_invariant.
+
+Theorem C03_fstart_release : forall F sel op iin,
+  ~ In FReplayError (snd (fstart F sel op iin)) -> ev_ids (fs_db (fst (fstart F sel op iin))) = [].
+Proof. exact fstart_release. Qed.
+Print Assumptions C03_fstart_release.
+
+Theorem C03_fevent_release : forall F st d ev,
+  boundary_inv (fs_s st) ->
+  let ro := fevent_out F st d ev in
+  ~ In FReplayError (ro_log ro) ->
+  (forall i, awaited_confirm (f_o F) (fs_s st) ev i ->
+     ev_ids (ro_db ro) = unwritten_ids d /\
+     exists rest, ro_out ro = OInfo i :: ODb DbClearWritten :: rest /\ Forall nc rest) /\
+  ((forall i, ~ awaited_confirm (f_o F) (fs_s st) ev i) ->
+     ev_ids (ro_db ro) = ev_ids d /\ Forall nc (ro_out ro)).
+Proof. exact fevent_release. Qed.
+Print Assumptions C03_fevent_release.
+
+Theorem C03_fstep_release : forall F st op,
+  FReach F st -> ~ In FReplayError (snd (fstep F st op)) ->
+  let d1 := fst (fop_event st op) in
+  let ev := snd (fop_event st op) in
+  let st' := fst (fstep F st op) in
+  (db_events d1 = db_events (fs_db st) \/
+   exists t i v var k, op = FUpdate t i v /\ db_events d1 = fst (ebuf_insert (db_events (fs_db st)) i k t v var)) /\
+  (forall i, awaited_confirm (f_o F) (fs_s st) ev i ->
+     d1 = fs_db st /\ ev_ids (fs_db st') = unwritten_ids (fs_db st)) /\
+  ((forall i, ~ awaited_confirm (f_o F) (fs_s st) ev i) -> ev_ids (fs_db st') = ev_ids d1).
+Proof. exact fstep_release. Qed.
+Print Assumptions C03_fstep_release.
+
+(* what clear_written_events reports and leaves, in the vocabulary of the composed theorems *)
+Theorem C03_clear_written_ids : forall d,
+  ev_ids (fst (db_clear_written d)) = unwritten_ids d /\ fst (snd (db_clear_written d)) = written_ids d /\
+  forall x, In x (ev_ids d) <-> In x (unwritten_ids d) \/ In x (written_ids d).
+Proof. exact clear_written_ids. Qed.
+Print Assumptions C03_clear_written_ids.
+
+(* ---- the hypotheses are satisfiable: concrete reachable states and steps (vm_compute in SessionC03Proofs.v) ---- *)
+
+Example C03_ex_session_states :
+  s_control ex_sw = CSolWait {| se_ecsn := 3; se_fin := true |} 5000 RStep2 /\
+  s_control ex_sw2 = CSolWait {| se_ecsn := 3; se_fin := false |} 5000 RStep2 /\
+  s_control ex_uw = CUnsolWait {| r_ctl := 241; r_fn := 130; r_iin1 := 128; r_iin2 := 0; r_size := 12 |} false (Some 1%nat) 5002 /\
+  waiting ex_sw = true /\ waiting ex_sw2 = true /\ waiting ex_uw = true /\ waiting (ex_st0 true) = false /\
+  ex_out true (ex_run true (firstn 2 ex_uhist)) EDbChange [AUnsol 1 (ex_body 7); ev0]
+  = [ODb (DbWriteUnsol true false false); ODb DbEvinfo; OTx 1 [241; 130; 128; 0; 2; 1; 40; 1; 0; 7; 0; 129];
+     OInfo (IEnterUnsolWait 1)].
+Proof. exact ex_states. Qed.
+
+Example C03_ex_release_only_on_awaited_confirm :
+  Reach (SessionC03Proofs.ex_cfg false) ex_sw /\ Reach (SessionC03Proofs.ex_cfg false) ex_sw2 /\ Reach (SessionC03Proofs.ex_cfg true) ex_uw /\
+  awaited_confirm (SessionC03Proofs.ex_cfg false) ex_sw (ex_confirm false 3) (ISolConfirmed 3) /\
+  ex_out false ex_sw (ex_confirm false 3) [] = [OInfo (ISolConfirmed 3); ODb DbClearWritten] /\
+  ex_out false ex_sw2 (ex_confirm false 3) [AWrite true true (ex_body 8); ev0]
+  = [OInfo (ISolConfirmed 3); ODb DbClearWritten; ODb DbWrite; ODb DbEvinfo; OTx 1 [100; 129; 128; 0; 2; 1; 40; 1; 0; 8; 0; 129]] /\
+  awaited_confirm (SessionC03Proofs.ex_cfg true) ex_uw (ex_confirm true 1) (IUnsolConfirmed 1) /\
+  ex_out true ex_uw (ex_confirm true 1) [] = [OInfo (IUnsolConfirmed 1); ODb DbClearWritten] /\
+  (forall i, ~ awaited_confirm (SessionC03Proofs.ex_cfg false) ex_sw (ex_confirm false 4) i) /\
+  ex_out false ex_sw (ex_confirm false 4) [] = [OInfo (ISolWrongSeq 3 4)] /\
+  ex_out false ex_sw (ex_confirm true 3) [] = [OInfo (IUnexpectedConfirm true 3)] /\
+  ex_out true ex_uw (ex_confirm true 2) [] = [] /\ ex_out true ex_uw (ex_confirm false 1) [] = [].
+Proof. exact ex_release_only_on_awaited_confirm. Qed.
+
+Example C03_ex_abandoned_responses_are_reset :
+  ex_out false ex_sw (ESleep 6000) [] = [OAt 5000; OInfo (ISolTimeout 3); ODb DbReset] /\
+  ex_out false ex_sw (ex_req 4) [ev1]
+  = [OInfo ISolNewRequest; ODb DbReset; OInfo (IIdleRequest 24 4); ODb DbEvinfo; OTx 1 [196; 129; 130; 0]] /\
+  ex_out false ex_sw EDisconnect [] = [ODb DbReset; OSessionEnd] /\
+  ex_out true ex_uw (ESleep 10000) []
+  = [OAt 5002; OInfo (IUnsolTimeout 1 true); OTx 1 [241; 130; 128; 0; 2; 1; 40; 1; 0; 7; 0; 129];
+     OAt 10002; OInfo (IUnsolTimeout 1 false); ODb DbReset] /\
+  ex_out true ex_uw (ex_disable 2) [ev1] = [ODb DbEvinfo; OTx 1 [194; 129; 130; 0]; ODb DbReset] /\
+  ex_out true ex_uw ex_disable_bc [] = [OInfo (IBroadcast 21 0 0); ODb DbReset] /\
+  ex_out true ex_uw EDisconnect [ev0] = [ODb DbReset; OSessionEnd] /\
+  ex_out true ex_uw (ex_req 2) [ev1] = [ODb DbEvinfo; OTx 1 [194; 129; 130; 0]] /\
+  same_wait ex_uw (fst (ostep (SessionC03Proofs.ex_cfg true) ex_uw (ex_req 2) [ev1])) /\
+  same_wait ex_uw (fst (ostep (SessionC03Proofs.ex_cfg true) ex_uw (ESleep 5000) [])) /\
+  same_wait ex_sw (fst (ostep (SessionC03Proofs.ex_cfg false) ex_sw (ex_read 3) [])) /\
+  abandon_reset (ex_out false ex_sw (ex_req 4) [ev1]).
+Proof. exact ex_abandoned_responses_are_reset. Qed.
+
+Example C03_ex_one_response_outstanding :
+  wait_shape ex_sw (ex_out false ex_sw (ex_req 4) [ev1]) (fst (ostep (SessionC03Proofs.ex_cfg false) ex_sw (ex_req 4) [ev1])) /\
+  (* the read that follows the abandoned series selects and writes after the reset *)
+  ex_out false ex_sw (ex_read 4) (ex_read_ans true)
+  = [OInfo ISolNewRequest; ODb DbReset; OInfo (IIdleRequest 1 4); ODb DbSelect; ODb DbWrite; ODb DbEvinfo;
+     OTx 1 [228; 129; 128; 0; 2; 1; 40; 1; 0; 7; 0; 129]; OInfo (IEnterSolWait 4)] /\
+  (* a READ during the unsolicited wait is deferred: nothing is selected or written *)
+  ex_out true ex_uw (ex_read 4) (ex_read_ans true) = [] /\
+  (* ... until the CONFIRM arrives: clear first, then the deferred READ *)
+  ex_out true (fst (ostep (SessionC03Proofs.ex_cfg true) ex_uw (ex_read 4) [])) (ex_confirm true 1) (ex_read_ans true)
+  = [OInfo (IUnsolConfirmed 1); ODb DbClearWritten; ODb DbDeferredSelect; ODb DbWrite; ODb DbEvinfo;
+     OTx 1 [228; 129; 128; 0; 2; 1; 40; 1; 0; 7; 0; 129]; OInfo (IEnterSolWait 4)].
+Proof. exact ex_one_response_outstanding. Qed.
+
+Example C03_ex_fstep_release :
+  let F := ex_full_cfg 5 in
+  let st := ex_fst 5 in
+  FReach F st /\ waiting (fs_s st) = true /\
+  ev_ids (fs_db st) = [0; 1] /\ written_ids (fs_db st) = [0; 1] /\ unwritten_ids (fs_db st) = [] /\
+  awaited_confirm (f_o F) (fs_s st) (snd (fop_event st (FRx 1 None [193; 0]))) (ISolConfirmed 1) /\
+  has_replay_error (snd (fstep F st (FRx 1 None [193; 0]))) = false /\
+  ev_ids (fs_db (fst (fstep F st (FRx 1 None [193; 0])))) = [] /\
+  In (FCleared [0; 1] 0 0 0) (snd (fstep F st (FRx 1 None [193; 0]))) /\
+  (forall i, ~ awaited_confirm (f_o F) (fs_s st) (snd (fop_event st (FRx 1 None [194; 0]))) i) /\
+  ev_ids (fs_db (fst (fstep F st (FRx 1 None [194; 0])))) = [0; 1] /\
+  has_replay_error (snd (fstep F st (FSleep 6000))) = false /\
+  ev_ids (fs_db (fst (fstep F st (FSleep 6000)))) = [0; 1] /\
+  written_ids (fs_db (fst (fstep F st (FSleep 6000)))) = [] /\
+  ev_ids (fs_db (fst (fstep F st (FUpdate TBinary 0 (SessionC03Proofs.ex_bi 1 3000))))) = [0; 1; 2] /\
+  written_ids (fs_db (fst (fstep F st (FUpdate TBinary 0 (SessionC03Proofs.ex_bi 1 3000))))) = [0; 1] /\
+  ev_ids (fs_db (ex_fst 1)) = [1] /\
+  ev_ids (fst (fop_event (ex_fst 1) (FUpdate TBinary 0 (SessionC03Proofs.ex_bi 1 3000)))) = [2] /\
+  ev_ids (fs_db (fst (fstep (ex_full_cfg 1) (ex_fst 1) (FUpdate TBinary 0 (SessionC03Proofs.ex_bi 1 3000))))) = [2].
+Proof. exact ex_fstep_release. Qed.
